@@ -48,7 +48,9 @@ def check(tier: str) -> int:
     chk = Check("C16", tier)
     chk.assumptions += ["'uses a missing variable' is read eagerly: any lookup that yields an undefined counts (one-sided oracle)",
                         "TLC, Json/IOUtils modules, CPython"]
-    plans = [("MC_Undef", "undef", {"Variant": '"single"'}, 1, 2), ("MC_Undef", "undef-probe", {"Variant": '"probe"'}, 3, 3), ("MC_Flow", "flow", {}, 1, 1), ("MC_Bool", "bool", {"Variant": '"ops"'}, 1, 1)]
+    plans = [("MC_Undef", "undef", {"Variant": '"single"'}, 1, 2), ("MC_Undef", "undef-probe", {"Variant": '"probe"'}, 3, 3), ("MC_Flow", "flow", {}, 1, 1), ("MC_Bool", "bool", {"Variant": '"ops"'}, 1, 1),
+             # nothing is missing here: loops around partials, macros and nested loops under the strict policies
+             ("MC_Scopes", "scopes-u", {}, 2, 2), ("MC_Loops", "loops-nest-u", {"Variant": '"nest"'}, 1, 1)]
     for module, name, consts, q, t in plans:
         r = gen.run_focus(chk, module, name, max_top=t if tier == "thorough" else q, extra_constants=consts,
                           invariants=("Total", "PolicyIrrelevantWithoutTouch"), export="ExportUndef", timeout=6000)
